@@ -810,6 +810,7 @@ def cfg_paths(fn, max_paths=20000):
                     env[m.group(1)] = env[m.group(2)]
                 else:
                     env.pop(m.group(1), None)
+                ev.append((bb, '=', st, m.group(1)))
                 continue
             m = re.match(r'^(_\d+) = ', st)
             if m:
